@@ -73,8 +73,17 @@ WFold(e, w, i) ==
           ELSE IF x.w.dead /\ ~e.bounded THEN Tag(IsPrefixOf(w.out, e.out), "output")   \* after the first failure: only what was accepted stays
           ELSE WFold(e, x.w, i + 1))
 
+\* bytes produced by compile-time serialization equal those produced at run time (by the constexpr writer and
+\* by the pedantic writer)
+CtFails(e) ==
+  UNION {LET c == e.cases[i] IN
+         Tag(c.st_c = 0 /\ c.st_p = 0, "compile-time:status")
+         \cup Tag(c.ct = c.rt_c, "compile-time-vs-run-time")
+         \cup Tag(c.rt_c = c.rt_p, "constexpr-vs-pedantic-writer") : i \in 1..Len(e.cases)}
+
 Fails(e) ==
   IF e.e \in {"UB", "Crash", "Exc", "Timeout", "BadCmd", "Race"} THEN {"abnormal"}
+  ELSE IF e.e = "CT" THEN CtFails(e)
   ELSE IF e.e # "IO" THEN {}
   ELSE IF e.side = "r"
        THEN RFold(e, NewReader(e.kind, e.src, e.bounded, e.limit, e.fk, e.fe), 1)
